@@ -17,9 +17,9 @@ Proof. exact respond_status. Qed.
 
 (* FULL STATEMENT: forall q, invalid q = true -> snd (respond q) = ENone.
    It is FALSE of the faithful model (and of the code): see C20_refuted.  What holds is the statement
-   for every invalid request outside that one class. *)
+   for every invalid request outside two classes. *)
 Theorem C20_invalid_changes_nothing_partial : forall q,
-  invalid q = true -> import_leftover q = false -> snd (respond q) = ENone.
+  invalid q = true -> import_leftover q = false -> tx_poisoned q = false -> snd (respond q) = ENone.
 Proof. exact invalid_no_effect. Qed.
 
 (* the missing class, exactly: POST /import on the primary for a name that does not exist yet, with an
@@ -28,6 +28,14 @@ Theorem C20_refuted : exists q, invalid q = true /\ snd (respond q) <> ENone.
 Proof. exact invalid_effect_refuted. Qed.
 Theorem C20_refuted_class : forall q, import_leftover q = true -> invalid q = true /\ respond q = (500, ECreateDB).
 Proof. exact import_leftover_spec. Qed.
+
+(* the second class: the holder of the halt lock forwards a file that continues the primary's position and carries a
+   wrong post-apply checksum - answered 500, but only after the file was put into the log and its pages into the database;
+   the primary then stops itself (known finding).  Nothing else makes a node stop. *)
+Theorem C20_refuted_class_forwarded : forall q, tx_poisoned q = true -> invalid q = true /\ respond q = (500, EStop).
+Proof. exact tx_poisoned_spec. Qed.
+Theorem C20_stop_only_when_poisoned : forall q, snd (respond q) = EStop -> tx_poisoned q = true.
+Proof. exact stop_only_when_poisoned. Qed.
 
 (* invalid requests are refused; the only 200 is the release of a lock that is not held, a no-op *)
 Theorem C20_invalid_refused : forall q, invalid q = true ->
@@ -54,11 +62,11 @@ Proof. exact write_effects_only_on_primary. Qed.
 
 (* the hypotheses are met and the conclusions are not trivial *)
 Example C20_nonvacuous :
-  (respond (mk_req RPrimary PTx MPost NmKnown IdHeld NdBad false true true true),
-   respond (mk_req RPrimary PTx MPost NmKnown IdOther NdBad false true true true),
-   respond (mk_req RReplica PHalt MPost NmKnown IdOther NdBad false false false false),
-   respond (mk_req RPrimary PHalt MDelete NmUnknown IdOther NdBad false false false false),
-   invalid (mk_req RPrimary PTx MPost NmKnown IdHeld NdBad false true true true),
-   invalid (mk_req RPrimary PTx MPost NmKnown IdOther NdBad false true true true))
+  (respond (mk_req RPrimary PTx MPost NmKnown IdHeld NdBad false true true true false),
+   respond (mk_req RPrimary PTx MPost NmKnown IdOther NdBad false true true true false),
+   respond (mk_req RReplica PHalt MPost NmKnown IdOther NdBad false false false false false),
+   respond (mk_req RPrimary PHalt MDelete NmUnknown IdOther NdBad false false false false false),
+   invalid (mk_req RPrimary PTx MPost NmKnown IdHeld NdBad false true true true false),
+   invalid (mk_req RPrimary PTx MPost NmKnown IdOther NdBad false true true true false))
   = ((200, EApplyTx), (409, ENone), (503, ENone), (404, ENone), false, true).
 Proof. vm_compute. reflexivity. Qed.
